@@ -194,9 +194,18 @@ def execute(args):
                  "random-half": [i for i in range(len(rows)) if random.Random(seed * 7 + i).random() < 0.5]}
         subs = {}
         for nm, idx in picks.items():
-            if idx and len(idx) < len(rows):
-                dfs = pd.DataFrame({k: [v[i] for i in idx] for k, v in cols.items()}, dtype=str)
+            if idx and len(idx) < len(rows):  # noqa
+                # every other sub-table is cut out of the full frame (it then keeps the row labels of the full table: a
+                # DataFrame whose index is not 0..n-1, as filtering produces)
+                if (seed + len(nm)) % 2:
+                    dfs = pd.DataFrame(cols, dtype=str).iloc[idx]
+                else:
+                    dfs = pd.DataFrame({k: [v[i] for i in idx] for k, v in cols.items()}, dtype=str)
                 subs[nm] = (idx, list(TabularInput(dfs, sidecar=Sidecar(io.StringIO(json.dumps(sidecar)))).series_a))
+        rev = list(range(len(rows)))[::-1]
+        if len(rev) > 1:           # the whole table with its rows (and row labels) in reverse order
+            subs["rows-reversed-keeping-labels"] = (rev, list(TabularInput(pd.DataFrame(cols, dtype=str).iloc[rev],
+                                                                        sidecar=Sidecar(io.StringIO(json.dumps(sidecar)))).series_a))
     except Exception as ex:  # noqa
         return ci, [("raises", "assembly raised %s: %s; sidecar=%s table=%s" % (type(ex).__name__, ex, sidecar, cols))], None
     if len(s1) != len(expected):
